@@ -38,6 +38,7 @@ import (
 const (
 	VHostA = "127.0.0.1:47811"
 	VHostB = "127.0.0.2:47811"
+	VHostC = "127.0.0.1:47812" // same address as A, another port: a different origin
 )
 
 // VResp scripts one response.
@@ -262,7 +263,7 @@ func startNative() {
 		os.Setenv("SSL_CERT_FILE", caFile)
 		os.Setenv("SSL_CERT_DIR", dir)
 		cert := tls.Certificate{Certificate: [][]byte{der}, PrivateKey: key}
-		for _, host := range []string{VHostA, VHostB} {
+		for _, host := range []string{VHostA, VHostB, VHostC} {
 			ln, err := tls.Listen("tcp", host, &tls.Config{Certificates: []tls.Certificate{cert}})
 			if err != nil {
 				nativeErr = err
